@@ -162,9 +162,11 @@ def strategy2(sym, op, NL, NR, dom):
         rh = ['a', 'z']
     assume(_sorted_by(L, pkey) and _sorted_by(R, pkey if pkey == 'row' else 'a'))
     bs = sym.pick('bs', [None, 1])
+    # row containers of the two inputs may differ (list rows from a literal, tuple rows from another petl view)
+    rrow = tuple if sym.flag('R.tuple-rows') else list
     with pickle_stub(), private_tempdir() as td:
-        ref = _mat(make([HDR] + [list(r) for r in L], [rh] + [list(r) for r in R]), False)
-        got = _mat(make([HDR] + [list(r) for r in L], [rh] + [list(r) for r in R], presorted=True, buffersize=bs,
+        ref = _mat(make([HDR] + [list(r) for r in L], [rh] + [rrow(r) for r in R]), False)
+        got = _mat(make([HDR] + [list(r) for r in L], [rh] + [rrow(r) for r in R], presorted=True, buffersize=bs,
                         tempdir=td), False)
     check(_same(got, ref), op + ': presorted=True on sorted inputs differs from the default call', L, R, got, ref)
 
